@@ -82,8 +82,9 @@ CHECKS = {
             "total mass, proportional renormalisation and mode on all small weight vectors and masks, and judges the probabilities, "
             "modes, samples and product structure of the real Categorical / Bernoulli / MultiCategorical classes case by case. "
             "Continuous laws (Normal, diagonal normal, squashed variants) contribute harness-evaluated identities only.",
-            "NOT decided: integrals of continuous densities incl. the squashing Jacobian, goodness of fit of samples, entropy = -E[log p] "
-            "for continuous laws (no state-machine content).",
+            "Statistical clauses (total mass of densities by quadrature incl. the squashing Jacobian, goodness of fit of samples incl. "
+            "joint frequencies of product laws, entropy = -E[log p]) are harness-evaluated atoms with fixed keys and 6-sigma bounds: "
+            "decided up to those tolerances on the sampled parameterisations (no state-machine content).",
             "DESIGN.md section 4 C15, section 5"),
     "C16": ("TLA+ DiscreteLaws spec: TLC exhaustive over weights x masks + real masked distributions and production policies judged by TLC",
             "TLC checks on all weight vectors (n <= 4) and all non-empty masks that masking zeroes masked actions, renormalises "
